@@ -65,6 +65,93 @@ impl Num for u64 {
         *self
     }
 }
+// A key type whose Display is NOT injective (two distinct keys print alike) and whose Hash is coarse: identity of keys is
+// Eq, nothing else.  Self-checking probe (step `klossy`): build, serialise (JSON and CBOR), deserialise, compare per node;
+// and a document whose edge names an UNDECLARED key that prints like a declared one must be rejected.
+#[derive(Clone, PartialEq, Eq, Debug)]
+pub struct Lk(pub u8, pub u64);
+impl serde::Serialize for Lk {
+    fn serialize<S: serde::Serializer>(&self, s: S) -> Result<S::Ok, S::Error> {
+        (self.0, self.1).serialize(s)
+    }
+}
+impl<'de> serde::Deserialize<'de> for Lk {
+    fn deserialize<D: serde::Deserializer<'de>>(d: D) -> Result<Lk, D::Error> {
+        <(u8, u64)>::deserialize(d).map(|(a, b)| Lk(a, b))
+    }
+}
+impl std::hash::Hash for Lk {
+    fn hash<H: std::hash::Hasher>(&self, state: &mut H) {
+        (self.1 % 2).hash(state)
+    }
+}
+impl std::fmt::Display for Lk {
+    fn fmt(&self, f: &mut std::fmt::Formatter<'_>) -> std::fmt::Result {
+        write!(f, "#{}", self.1)
+    }
+}
+macro_rules! lossy_probe {
+    ($name:ident, $fl:ident, $iter:ident, $directed:expr) => {
+        pub fn $name() -> String {
+            use gdsl::$fl::{Graph, Node};
+            let keys = [Lk(0, 1), Lk(1, 1), Lk(0, 2), Lk(1, 2)];
+            let nodes: Vec<Node<Lk, i64, u64>> = keys.iter().enumerate().map(|(i, k)| Node::new(k.clone(), i as i64)).collect();
+            nodes[0].connect(&nodes[2], 10);
+            nodes[1].connect(&nodes[3], 11);
+            nodes[1].connect(&nodes[0], 12);
+            nodes[3].connect(&nodes[3], 13);
+            let mut g: Graph<Lk, i64, u64> = Graph::new();
+            for n in &nodes {
+                g.insert(n.clone());
+            }
+            let show = |g: &Graph<Lk, i64, u64>| -> Vec<String> {
+                let mut v: Vec<String> = keys
+                    .iter()
+                    .map(|k| match g.get(k) {
+                        Some(n) => {
+                            let mut es: Vec<String> = n.$iter().map(|e| format!("{:?}>{:?}:{}", e.source().key(), e.target().key(), e.value())).collect();
+                            if !$directed {
+                                es.sort();
+                            }
+                            format!("{:?}={} [{}]", k, n.value(), es.join(" "))
+                        }
+                        None => format!("{:?} missing", k),
+                    })
+                    .collect();
+                v.push(format!("len {}", g.len()));
+                v
+            };
+            let want = show(&g);
+            let json = serde_json::to_string(&g).unwrap();
+            let back: Graph<Lk, i64, u64> = match serde_json::from_str(&json) {
+                Ok(b) => b,
+                Err(e) => return format!("json round trip failed: {}", e),
+            };
+            if show(&back) != want {
+                return format!("json round trip differs: {:?} vs {:?}", show(&back), want);
+            }
+            let cbor = serde_cbor::to_vec(&g).unwrap();
+            let back2: Graph<Lk, i64, u64> = match serde_cbor::from_slice(&cbor) {
+                Ok(b) => b,
+                Err(e) => return format!("cbor round trip failed: {}", e),
+            };
+            if show(&back2) != want {
+                return format!("cbor round trip differs: {:?} vs {:?}", show(&back2), want);
+            }
+            // declared: (0,1) and (0,2); the edge names (1,2), which prints like (0,2) but is not declared
+            let doc = serde_json::json!([[[[0, 1], 5], [[0, 2], 6]], [[[0, 1], [1, 2], 9]]]);
+            match serde_json::from_value::<Graph<Lk, i64, u64>>(doc) {
+                Ok(_) => "an edge naming an undeclared key that PRINTS like a declared one was accepted".to_string(),
+                Err(_) => "ok".to_string(),
+            }
+        }
+    };
+}
+lossy_probe!(lossy_digraph, digraph, iter_out, true);
+lossy_probe!(lossy_sync_digraph, sync_digraph, iter_out, true);
+lossy_probe!(lossy_ungraph, ungraph, iter, false);
+lossy_probe!(lossy_sync_ungraph, sync_ungraph, iter, false);
+
 #[derive(Clone, PartialEq, Eq, Debug)]
 pub struct Ky(pub u64);
 impl std::hash::Hash for Ky {
